@@ -302,7 +302,7 @@ async fn systematic(tr: &mut Tracer, sessexp: u64, privexp: u64) {
 }
 
 async fn random(tr: &mut Tracer, rng: &mut Rng, steps: u64) {
-    let (sessexp, privexp) = *rng.pick(&[(86400u64, 600u64), (1800, 300), (7200, 3600), (900, 60)]);
+    let (sessexp, privexp) = *rng.pick(&[(86400u64, 600u64), (1800, 300), (7200, 120), (900, 60)]);
     tr.emit(&json!({"a":"reset","sessexp":sessexp,"privexp":privexp}));
     let mut p = P::new(sessexp, privexp).await;
     let mut now = 10u64;
